@@ -119,5 +119,88 @@ def run_ops(rep, tier):
                     rep.violation("autograd.numpy.numpy_boxes:VT-ops", f"{mode}:{nm}", f"{mode}: {d}", replay=dict(module="contracts.value_transparency", name=f"VT-ops {mode}:{nm}"), witness=True)
 
 
+def run_plain(rep, tier):
+    """VT-plain: the re-implemented wrappers of autograd.numpy (concatenate/stack family, array, c_/r_, select, ...) called on PLAIN values -
+    also as constants inside a differentiated function - return what NumPy returns: same type, dtype, shape, values, and a result that does not alias
+    its input unless NumPy's does."""
+    import warnings
+    import numpy as onp
+    import autograd.numpy as anp
+    from autograd import make_vjp
+    warnings.simplefilter("ignore")
+    A = onp.arange(6.0).reshape(2, 3) + 0.5
+    v = onp.array([1.0, 2.0, 3.0])
+    calls = {
+        "concatenate((A,), axis=None)": lambda np_: np_.concatenate((A,), axis=None),
+        "concatenate((A,))": lambda np_: np_.concatenate((A,)),
+        "concatenate((A,), axis=1)": lambda np_: np_.concatenate((A,), axis=1),
+        "concatenate([[1., 2., 3.]])": lambda np_: np_.concatenate([[1.0, 2.0, 3.0]]),
+        "concatenate([v, [4.0]])": lambda np_: np_.concatenate([v, [4.0]]),
+        "concatenate((A, A), axis=None)": lambda np_: np_.concatenate((A, A), axis=None),
+        "stack([v])": lambda np_: np_.stack([v]),
+        "stack([v, v], axis=-1)": lambda np_: np_.stack([v, v], axis=-1),
+        "hstack([v])": lambda np_: np_.hstack([v]),
+        "hstack((A, A))": lambda np_: np_.hstack((A, A)),
+        "vstack([v])": lambda np_: np_.vstack([v]),
+        "dstack([A])": lambda np_: np_.dstack([A]),
+        "column_stack([v])": lambda np_: np_.column_stack([v]),
+        "column_stack([v, A.T])": lambda np_: np_.column_stack([v, A.T]),
+        "row_stack-like vstack((A, v))": lambda np_: np_.vstack((A, v)),
+        "array(A)": lambda np_: np_.array(A),
+        "array([v, v])": lambda np_: np_.array([v, v]),
+        "array(3.0)": lambda np_: np_.array(3.0),
+        "array([1, 2], dtype=float)": lambda np_: np_.array([1, 2], dtype=float),
+        "array(A, ndmin=3)": lambda np_: np_.array(A, ndmin=3),
+        "array([[1.0, v[0]], [v[1], 2.0]])": lambda np_: np_.array([[1.0, v[0]], [v[1], 2.0]]),
+        "append(v, 4.0)": lambda np_: np_.append(v, 4.0),
+        "append(A, A, axis=0)": lambda np_: np_.append(A, A, axis=0),
+        "c_[v, v]": lambda np_: np_.c_[v, v],
+        "r_[v, 0.5, v]": lambda np_: np_.r_[v, 0.5, v],
+        "select": lambda np_: np_.select([v > 2, v > 1], [v, v * 2], default=-1.0),
+        "reshape(A, -1)": lambda np_: np_.reshape(A, -1),
+        "ravel(A)": lambda np_: np_.ravel(A),
+        "where(v > 1, v, 0.0)": lambda np_: np_.where(v > 1, v, 0.0),
+        "tile(v, 2)": lambda np_: np_.tile(v, 2),
+        "atleast_2d(v)": lambda np_: np_.atleast_2d(v),
+        "expand_dims(v, 0)": lambda np_: np_.expand_dims(v, 0),
+        "sum(A, axis=0)": lambda np_: np_.sum(A, axis=0),
+        "max(A)": lambda np_: np_.max(A),
+        "linalg.norm(v)": lambda np_: np_.linalg.norm(v),
+        "fft.fft(v)": lambda np_: np_.fft.fft(v),
+    }
+    for lab, call in calls.items():
+        rep.bounded_case(("VT-plain", lab))
+        try:
+            exp = call(onp)
+        except Exception as e:
+            rep.note(f"VT-plain {lab}: NumPy itself raised {type(e).__name__}")
+            continue
+        try:
+            got = call(anp)
+            ok = type(got) is type(exp) and onp.shape(got) == onp.shape(exp) and getattr(got, "dtype", None) == getattr(exp, "dtype", None) and onp.array_equal(got, exp)
+            det = f"autograd.numpy gives {type(got).__name__} {getattr(got, 'dtype', '')} {onp.shape(got)} {onp.asarray(got).ravel()[:6].tolist() if ok is False else ''}; NumPy gives {type(exp).__name__} {getattr(exp, 'dtype', '')} {onp.shape(exp)}"
+            if ok and isinstance(got, onp.ndarray) and isinstance(exp, onp.ndarray):
+                alias_np = any(onp.shares_memory(exp, z) for z in (A, v))
+                alias_ag = any(onp.shares_memory(got, z) for z in (A, v))
+                if alias_ag and not alias_np:
+                    ok, det = False, "the result shares memory with its input; NumPy returns a new array (writing into the result would change the caller's data)"
+            # the same call as a CONSTANT inside a differentiated function
+            if ok:
+                _, y = make_vjp(lambda x: call(anp) * x if not isinstance(call(anp), list) else x)(2.0)
+                ok = onp.array_equal(y, exp * 2.0)
+                det = det if ok else f"as a constant inside a differentiated function the value differs: {onp.asarray(y).ravel()[:6].tolist()}"
+        except Exception as e:
+            ok, det = False, f"raised {type(e).__name__}: {str(e)[:100]}"
+        if not ok:
+            rep.violation("autograd.numpy.numpy_wrapper:VT-plain", lab, f"{lab}: {det}", replay=dict(module="contracts.value_transparency", name=f"VT-plain {lab}"), witness=True)
+
+
 def replay(spec):
+    if spec.get("name", "").startswith("VT-plain "):
+        from vlib.common import Report
+        r = Report("replay", "quick", "other", "replay")
+        r.known = {"findings": []}
+        run_plain(r, "quick")
+        bad = [x for x in r.violations if x["case"] == spec["name"][len("VT-plain "):]]
+        return (not bad), (bad[0]["what"] if bad else "holds"), "NumPy's own result for the same call"
     return False, f"ground obligation {spec['name']} violated on this tree", "see contracts/value_transparency.py"
